@@ -154,6 +154,19 @@ class AlwaysRaises(_EngineAlwaysRaises):
         self.sure = sure
 
 
+class NVec(Vec):
+    """``index.to_numpy()`` / ``index.values``: a numpy *view* of the integer data held by ``owner`` (a horizon's wrapped
+    index).  Compares like the vector it shows; in-place operations on it write through to the owner."""
+
+    def __init__(self, vec, owner=None):
+        Vec.__init__(self, vec.base, vec.off, vec.sorted, vec.neg)
+        self.owner = owner
+
+
+def fresh(v):
+    return Vec(v.base, v.off, v.sorted, v.neg) if isinstance(v, NVec) else v
+
+
 class RaiseRec(tuple):
     """(raise node, sure?) of one raising trace plus the integer facts / function it happened in."""
 
@@ -226,6 +239,7 @@ class FHInterp(Interp):
         self._keying = set()
         self.last_raise = None
         self._raise_log = [[]]  # per interpreted function: (raise node or None, sure?) of every raising trace
+        self.mutations = []  # in-place operations on array views of horizon data: dict(node, func, value, how)
         self.partial_rejections = []  # RaiseRec of callee traces that raised while sibling traces returned
         self._acc = []  # per enclosing for-loop: {list name: (appended value, iterable, unconditional?)}
 
@@ -356,6 +370,10 @@ class FHInterp(Interp):
         return Interp._is(self, a, b)
 
     def _stmt(self, node, st, frame):
+        if isinstance(node, ast.AugAssign) and isinstance(node.target, ast.Name) and isinstance(st.env.get(node.target.id), NVec):
+            # ``view op= x`` on a numpy array works in place: the owner of the data sees the new values
+            self.mutations.append({"node": node, "func": frame.func, "value": st.env[node.target.id],
+                                   "how": "augmented assignment"})
         if isinstance(node, ast.Raise):
             self.last_raise = node
             sure = self.guards_decided(node, st, frame)
@@ -390,6 +408,8 @@ class FHInterp(Interp):
 
     def store_subscript(self, target, val, st, frame):
         base = self.ev(target.value, st, frame)
+        if isinstance(base, NVec):
+            self.mutations.append({"node": target, "func": frame.func, "value": base, "how": "element assignment"})
         idx = self.ev(target.slice, st, frame) if not isinstance(target.slice, ast.Slice) else None
         self.events.append({"kind": "subscript-store", "base": base, "idx": idx, "val": val, "node": target,
                             "func": frame.func, "facts": st.facts.copy()})
@@ -631,7 +651,9 @@ class FHInterp(Interp):
                 if isinstance(node, ast.Constant):
                     return self.ev_Constant(node, st, frame)
             return Opq("self." + attr)
-        if isinstance(base, (Vec, Sel, TV)) and attr == "values":
+        if isinstance(base, Vec) and attr == "values":
+            return NVec(base)
+        if isinstance(base, (Sel, TV)) and attr == "values":
             return base
         return Interp.getattr(self, base, attr, e, st, frame)
 
@@ -711,6 +733,22 @@ class FHInterp(Interp):
                 if isinstance(a, Cnt) or isinstance(b, Cnt):
                     return Opq("cmp:" + op, [a, b])
         return Interp.ev_Compare(self, e, st, frame)
+
+    def ev_BoolOp(self, e, st, frame):
+        d = self.decide(e, st, frame)
+        if d is not None:
+            return K(d)
+        conj = isinstance(e.op, ast.And)
+        parts = []
+        for v in e.values:
+            dv = self.decide(v, st, frame)
+            if dv is None:
+                parts.append(self.ev(v, st, frame))
+            elif dv is not conj:
+                return K(dv)
+        if len(parts) == 1:
+            return parts[0]
+        return Opq("and" if conj else "or", parts)
 
     def ev_UnaryOp(self, e, st, frame):
         if isinstance(e.op, ast.Invert):
@@ -826,9 +864,13 @@ class FHInterp(Interp):
             return K(r) if r is not None else Opq("isinstance", args)
         if ext == "builtins.type" and len(args) == 1:
             return Opq("type", args)
+        if ext == "builtins.bool" and len(args) == 1 and (isinstance(args[0], K) or (
+                isinstance(args[0], Opq) and args[0].tag.startswith(("cmp:", "or", "and", "not")))):
+            return args[0]  # truth value of a comparison
         if ext in ("builtins.list", "builtins.tuple", "numpy.array", "numpy.asarray") and len(args) == 1 and not kwargs \
                 and isinstance(args[0], (Rng, Vec, Sel)):
-            return args[0]  # same elements in the same order
+            # same elements in the same order; only asarray may share memory with its argument
+            return args[0] if ext == "numpy.asarray" else fresh(args[0])
         if ext == "builtins.len" and len(args) == 1:
             a = self.undelegate(args[0])
             if isinstance(a, (Sel, TV)):
@@ -891,8 +933,13 @@ class FHInterp(Interp):
                     if recv.tag == "sorted":
                         return recv
                     return TV(recv.kind, "sorted", [recv])
+                if meth == "to_numpy" and isinstance(recv, Vec) and kwargs.get("copy") != K(True) and not args:
+                    return NVec(recv)  # no-copy view of the index data (numpy / pandas semantics for integer indices)
                 if meth in ("to_numpy", "copy", "to_list", "tolist"):
-                    return recv
+                    return fresh(recv)
+                if meth in ("sort", "fill", "resize", "put", "itemset", "partition") and isinstance(recv, NVec):
+                    self.mutations.append({"node": call, "func": frame.func, "value": recv, "how": "." + meth + "()"})
+                    return K(None)
                 if meth in ("max", "min") and not args and isinstance(recv, Vec) and recv.sorted and not recv.neg:
                     return recv.elem("last" if meth == "max" else "first")
             if isinstance(recv, TV) and meth == "astype" and args:
